@@ -133,10 +133,13 @@ class IpcCommand:
             return 0
         elif isinstance(ret, tuple):
             code, response = ret
-            return f"{code}\x07{response}"
         elif isinstance(ret, (int, str)):
-            return f"0\x07{ret}"
-        raise TypeError(f"unsupported return status type: {type(ret)}")
+            code, response = 0, ret
+        else:
+            raise TypeError(f"unsupported return status type: {type(ret)}")
+        # the bash side reads the reply as a single line
+        response = str(response).replace("\n", " ")
+        return f"{code}\x07{response}"
 
     def parse_args(self, options, args):
         """Parse internal args passed from the bash side."""
